@@ -69,7 +69,8 @@ def flag_governed_failure(ctx: Ctx) -> None:
     ok2 = bool(tests) and all(g.nodes[m].kind in ("for", "exit") or not isinstance(g.nodes[m].ast, ast.Raise) for m, lab in g.succ[tests[0].id] if lab == "false")
     ctx.ob("ElementNode.bind_attrs: with the flag off the unknown attribute is ignored", ok2, at=fi, construct="unknown attribute ignore", msg="tolerant branch fails")
     # the raise is reached only when neither a declared attribute nor an attributes map matched
-    fa = [t for t in g.nodes if t.kind == "test" and unparse(t.ast) == "var"]
+    found = {tgt.id for _, tgt, v in stores(fi.node) if isinstance(tgt, ast.Name) and isinstance(v, ast.Call) and isinstance(v.func, ast.Attribute) and v.func.attr in ("find_attribute", "find_any_attributes")}
+    fa = [t for t in g.nodes if t.kind == "test" and isinstance(t.ast, ast.Name) and t.ast.id in found]
     lookups = {name: [n.id for n in g.stmts() if any(isinstance(c.func, ast.Attribute) and c.func.attr == name for c in node_calls(n))] for name in ("find_attribute", "find_any_attributes")}
     ok = bool(raises) and any(g.only_if(raises[0].id, t.id, False) for t in fa) and all(ids and g.must_pass(g.entry, raises[0].id, ids) for ids in lookups.values())
     ctx.ob("ElementNode.bind_attrs: strictness is consulted only after the declared attributes and the attributes maps were looked up and none matched", ok, at=fi,
